@@ -70,15 +70,18 @@ void gen_world(Rng& r, Plan& p, GenOpts const& o)
 
     switch (o.eng_class)
     {
-    case 1: p.eng = r.chance(0.7) ? E_SCRIPT64 : E_SCRIPT32; break;
+    case 1: p.eng = r.chance(0.65) ? E_SCRIPT64 : r.chance(0.7) ? E_SCRIPT32 : E_SCRIPT14; break;
     case 2: p.eng = E_SCRIPT64; break;
     case 3: p.eng = 2 + static_cast<int>(r.below(9)); break;
-    default: p.eng = r.chance(0.45) ? static_cast<int>(r.below(2)) : 2 + static_cast<int>(r.below(9));
+    default: p.eng = r.chance(0.45) ? (r.chance(0.1) ? E_SCRIPT14 : static_cast<int>(r.below(2))) : 2 + static_cast<int>(r.below(9));
     }
 
     p.eseed = 1 + r.below(1000000);
     p.dims = 1 + r.below(3);
     bool const high = o.allow_high_dims && p.integ != MULTI && r.chance(0.04);
+    // multi-channel maps may produce more or fewer coordinates than they consume random numbers
+    p.mapd = (p.integ == MULTI && r.chance(0.15)) ? std::max<u64>(1, p.dims + r.below(3) - 1) : 0;
+    if (p.mapd == p.dims) p.mapd = 0;
 
     static u64 const bins_pick[] = {2, 2, 3, 4, 5, 8, 16, 32};
     p.bins = r.chance(0.8) ? r.pick(bins_pick) : 2 + r.below(62);
